@@ -1,0 +1,12 @@
+//go:build !verif
+
+package nonprod
+
+import (
+	"crypto/rsa"
+	"io"
+)
+
+func generateRSAKey(random io.Reader, bitSize int) (*rsa.PrivateKey, error) {
+	return rsa.GenerateKey(random, bitSize)
+}
